@@ -4,7 +4,6 @@ import (
 	"fmt"
 	"go/types"
 
-	"github.com/gopher-fleece/gleece/v2/common/linq"
 	"github.com/gopher-fleece/gleece/v2/core/annotations"
 	"github.com/gopher-fleece/gleece/v2/definitions"
 )
@@ -78,10 +77,24 @@ type EnumMeta struct {
 	Values    []EnumValueDefinition
 }
 
+// DistinctValues returns the enum's values as text, each once, in declaration order.
+// Two constants may carry the same value (e.g. StateOn and StateEnabled both "on") - the enum still has that value once.
+func (e EnumMeta) DistinctValues() []string {
+	values := make([]string, 0, len(e.Values))
+	seen := make(map[string]struct{}, len(e.Values))
+	for _, value := range e.Values {
+		text := fmt.Sprintf("%v", value.Value)
+		if _, exists := seen[text]; exists {
+			continue
+		}
+		seen[text] = struct{}{}
+		values = append(values, text)
+	}
+	return values
+}
+
 func (e EnumMeta) Reduce(_ ReductionContext) (definitions.EnumMetadata, error) {
-	stringifiedValues := linq.Map(e.Values, func(value EnumValueDefinition) string {
-		return fmt.Sprintf("%v", value.Value)
-	})
+	stringifiedValues := e.DistinctValues()
 
 	return definitions.EnumMetadata{
 		Name:        e.Name,
